@@ -252,11 +252,15 @@ func (c *rapidContext) watchEvents(events <-chan supvmodel.Event) {
 			log.Warnf("Process %s exited: %+v", *termination.Name, termination)
 		}
 
+		// Cancel the flows before the exit is made visible to a shutdown in progress:
+		// once the exited channel is closed, shutdown() may return and the state may be
+		// cleared for the next generation, whose flows a late cancellation would hit.
+		c.registrationService.CancelFlows(err)
+
 		// At the moment we only get termination events.
 		// When their are other event types then we would need to be selective,
 		// about what we send to handleShutdownEvent().
 		c.shutdownContext.handleProcessExit(*termination)
-		c.registrationService.CancelFlows(err)
 	}
 }
 
